@@ -25,10 +25,21 @@ META = {
 }
 
 
+def computed_floats(n):
+    """the same 0.01-grid mark as a caller's arithmetic leaves it: n * 0.01, whole part + hundredths / 100 - doubles an ulp or two
+    away from the nearest double of n / 100 ("independent of binary floating-point representation")"""
+    base = n / 100
+    out = []
+    for name, v in (('float-product', n * 0.01), ('float-sum', n // 100 + (n % 100) / 100), ('float-sum-tenths', n // 10 / 10 + (n % 10) / 100)):
+        if v != base and all(v != o[1] for o in out):
+            out.append((name, v))
+    return out
+
+
 def forms_time(n):
     """documented input forms for a time of n hundredths"""
     s = '%d.%02d' % divmod(n, 100)
-    out = [('float', n / 100), ('text', s)]
+    out = [('float', n / 100), ('text', s)] + computed_floats(n)
     if n % 100 == 0:
         out.append(('int', n // 100))
     if n >= 6000:
@@ -39,7 +50,7 @@ def forms_time(n):
 
 def forms_len(n):
     s = '%d.%02d' % divmod(n, 100)
-    out = [('float', n / 100), ('text', s)]
+    out = [('float', n / 100), ('text', s)] + computed_floats(n)
     if n % 100 == 0:
         out.append(('int', n // 100))
     return out
@@ -524,6 +535,8 @@ def run_sportshall(mon, ctx, job, rnd):
             attach.call(f, code, int(x))
         else:
             attach.call(f, code, float(x))
+            for name, v in computed_floats(int(x * 100)):
+                attach.call(f, code, v)
             if x == x.to_integral_value():
                 attach.call(f, code, int(x))
                 attach.call(f, code, str(int(x)))
@@ -557,6 +570,8 @@ def run_bulgarian(mon, ctx, job, rnd):
     lo, hi = min(T['min'], T['max']), max(T['min'], T['max'])
     for n in range(max(0, lo - 300), hi + 301):
         attach.call(f, ag, g, ev, n / 100)
+        for name, v in computed_floats(n):
+            attach.call(f, ag, g, ev, v)
         if n % 100 == 0:
             attach.call(f, ag, g, ev, n // 100)
         if timed and (n % 3 == 0 or ctx.tier == 'thorough'):
